@@ -149,8 +149,37 @@ def load_known():
 _STATS = re.compile(r"(\d+) states generated, (\d+) distinct states found, (\d+) states left on queue")
 
 
+def _unwrap(out):
+    """TLC pretty-prints a printed tuple that is wider than 80 columns over several lines (`<< "MISMATCH",` / indented
+    elements / `... >>`). Join such tuples back into the one-line form `<<"MISMATCH", ...>>` the parsers expect."""
+    res, cur = [], None
+    for ln in out.splitlines():
+        if cur is not None:
+            if ln.startswith("   ") or ln.startswith("\t"):
+                cur.append(ln.strip())
+                continue
+            res.append(_canon(" ".join(cur)))
+            cur = None
+        if ln.startswith("<< "):
+            cur = [ln.strip()]
+        else:
+            res.append(ln)
+    if cur is not None:
+        res.append(_canon(" ".join(cur)))
+    return "\n".join(res)
+
+
+def _canon(t):
+    if t.startswith("<< "):
+        t = "<<" + t[3:]
+    if t.endswith(" >>"):
+        t = t[:-3] + ">>"
+    return t
+
+
 class TlcResult:
     def __init__(self, rc, out, wall):
+        out = _unwrap(out)
         self.rc, self.out, self.wall = rc, out, wall
         m = _STATS.findall(out)
         self.generated = int(m[-1][0]) if m else 0
